@@ -13,8 +13,7 @@ SPEC = dict(
         "are not join keywords / skip-prefixed, a bare name is not followed by blanks + `.`/`(`, no db.table with the header) and "
         "outside the two early exits (the text `read_parquet` anywhere; the header-only single-table fast path). The proof goes "
         "through the four regex passes in the order of the source (pass lemma + per-site lemmas H1-H4). The full statement is "
-        "FALSE of the current source: one kernel-evaluated witness per excluded class (C16_comma_join_/distinct_from_/cte_shadow_/"
-        "cte_quoted_/rp_text_/fastpath_partial_/fastpath_cr_/tablefunc_fast_/lateral_newline_/comment_last_byte_witness; the former with-newline class is fixed in /repo (04fa395) and kept as C16_with_newline_fixed). "
+        "FALSE of the current source: one kernel-evaluated witness per class that is still false of the source (C16_comma_join_/distinct_from_/cte_shadow_/fastpath_partial_witness); the classes fixed in /repo since (rp-text 56228b9, cte-quoted 73763cd, lateral-newline 00bd721, comment-last-byte 168cceb, fastpath-cr 002a8ca, table function in the fast path 7134395, with-newline 04fa395, JOIN/second-FROM fast-path variants d4e5686/53c9b19) are kept as C16_*_fixed theorems on their former witness inputs and kept as C16_with_newline_fixed). "
         "C16_cache_key (FULL, true since the fix /repo 12df811 `cacheKey := headerDB + NUL + sql`): the transform-cache key determines "
         "(header, sql) for ALL pairs of requests the gate accepts - any SQL text, header absent or matching validIdentifierPattern "
         "(hdrOK_noNul: such a header has no NUL; C16_cache_key_needs_header_gate shows the gate hypothesis is needed); the pre-fix "
@@ -28,7 +27,7 @@ SPEC = dict(
         "C16_same_rows) - exercised by running Arc's real query path and a plain DuckDB with one view per measurement on random "
         "datasets; that differential run is a search/validation, never a proof, and it finds two classes where DuckCompositional "
         "fails for Arc's replacement text (implicit table alias lost; name case)."),
-    level_note="proof (partial - substitution exactness on the regex path under an explicit carve-out; DuckDB compositionality assumed; cache-key clause full since 12df811; 11 known-false rewrite classes witnessed)",
+    level_note="proof (partial - substitution exactness on the regex path under an explicit carve-out; DuckDB compositionality assumed; cache-key clause full since 12df811; 4 known-false rewrite classes witnessed, 8 former classes fixed in /repo and re-proved on their witnesses)",
     technique="Lean 4 proof over a token-level transcription of the regex rewrite (scan = leftmost non-overlapping matcher per pattern, CTE registry, masks, fast path, cache key); regenerated regex literals / pass order / cache-key construction; differential correspondence of the rewritten text and differential execution Arc-vs-DuckDB-with-views",
     factgen=True,
     hooks={"internal/api": "go/hooks/c16_api"},
